@@ -3,7 +3,7 @@
    (a row that is not a `known:` line of known_findings.txt is a violation; the theorems of
    Proofs/TablesProofs.v fail on exactly those rows). *)
 From Coq Require Import NArith List String Bool Ascii.
-From Falco Require Import Base.TablesBase Model.ScopeMask Model.LintTables Model.LintOps Model.TablesDomain Model.InterpAssign.
+From Falco Require Import Base.TablesBase Model.ScopeMask Model.LintTables Model.LintOps Model.TablesDomain Model.InterpAssign Model.InterpVars.
 From Falco Require Import Gen.KnownGaps.
 From Falco Require Import Gen.LintConsts Gen.LintVars Gen.LintDyn Gen.LintFuncs Gen.RefVars Gen.RefFuncs Gen.InterpFuncs.
 From Falco Require Import Gen.ObsVars Gen.ObsFuncs Gen.ObsStmts Gen.ObsOps Gen.ObsWide Gen.ObsCoerce Gen.ObsInferred.
@@ -28,7 +28,11 @@ Definition gaps_vars : list gap_row :=
     let refb := match assoc t ref_vars with
                 | Some rv => bits_of (fun p => ref_var_allows rv op (mask_at p)) positions45
                 | None => 0 end in
+    let ib := fold_right (fun s acc => if interp_var_has n op s then N.lor (N.shiftl 1 s) acc else acc) 0 idx9 in
+    let regen := bits_of (fun p => all_scopes_test ib (mask_at p)) positions45 in
     row_if "var-model" n op (N.lor (N.lxor model ctx) (N.lxor model lint))
+    ++ row_if "var-interp-regen" n op
+         (bits_of (fun p => if Bool.eqb (N.testbit regen p) (N.testbit interp p) then false else negb (gap_covers "var-interp" n op p)) positions45)
     ++ row_if "var-ref" n op (N.lxor lint refb)
     ++ row_if "var-interp" n op (N.ldiff lint interp) end) obs_vars.
 
@@ -107,6 +111,17 @@ Definition gaps_wide : list gap_row :=
     row_if "stmt-wide-model" k "" (N.lxor (wide_bits (fun m => lint_stmt k (lint_mode m))) (wide_obs bits))
     ++ row_if "stmt-wide-ref" k "" (N.lxor (wide_bits (fun m => forallb (ref_stmt k) (scopes_of m))) (wide_obs bits)) end) obs_stmts_wide.
 
+(* literal spellings: same verdicts as the base cell of the type *)
+Definition gaps_variants : list gap_row :=
+  flat_map (fun r => match r with (op, lty, lint, interp) =>
+    row_if "opv-lint" op lty
+      (fold_right (fun v acc => match v with (i, _, t, f) =>
+         if Bool.eqb (lint_op_model op lty t f) (N.testbit lint i) then acc else N.lor (N.shiftl 1 i) acc end) 0 lit_variants)
+    ++ row_if "opv-interp" op lty
+      (fold_right (fun v acc => match v with (i, _, t, f) =>
+         if Bool.eqb (interp_op_model op lty t f) (N.testbit interp i) then acc else N.lor (N.shiftl 1 i) acc end) 0 lit_variants)
+    end) obs_op_variants.
+
 (* provenance of the left operand *)
 Definition opl_bits (f : string -> string -> bool) : N :=
   fold_right (fun c acc => match c with (p, rt, fm) => if f rt fm then N.lor (N.shiftl 1 p) acc else acc end) 0 op_cells_left.
@@ -136,7 +151,7 @@ Definition gaps_inferred : list gap_row :=
   inferred_gap_rows pair_masks obs_inferred ++ inferred_gap_rows triple_masks obs_inferred3.
 
 Definition all_gap_rows : list gap_row :=
-  gaps_tables ++ gaps_func_table ++ gaps_vars ++ gaps_var_types ++ gaps_funcs ++ gaps_stmts ++ gaps_ops ++ gaps_wide ++ gaps_ops_left ++ gaps_coerce ++ gaps_inferred.
+  gaps_tables ++ gaps_func_table ++ gaps_vars ++ gaps_var_types ++ gaps_funcs ++ gaps_stmts ++ gaps_ops ++ gaps_wide ++ gaps_variants ++ gaps_ops_left ++ gaps_coerce ++ gaps_inferred.
 
 Definition domain_sizes : list (string * N) :=
   [("variables", N.of_nat (List.length lint_var_flat)); ("variable rows", N.of_nat (List.length obs_vars));
